@@ -123,7 +123,19 @@ func propRestored(t *rapid.T, s *rt.Section) {
 	}
 	var use []*gen.Node
 	for i := rapid.IntRange(1, 3).Draw(t, "useStmts"); i > 0; i-- {
-		use = append(use, sg.flat())
+		e := sg.flat()
+		switch rapid.IntRange(0, 5).Draw(t, "useWrap") {
+		case 0:
+			// the restored definitions are first used from inside a function the use program defines itself
+			name := fmt.Sprintf("wr%d", i)
+			use = append(use, &gen.Node{K: "func", S: name, Kids: []*gen.Node{gen.Block(gen.N("ret", e))}}, gen.Call(gen.Var(name)))
+		case 1:
+			// … or from inside a computed value of the use program
+			name := fmt.Sprintf("wc%d", i)
+			use = append(use, &gen.Node{K: "setc", S: name, Kids: []*gen.Node{e}}, gen.Var(name))
+		default:
+			use = append(use, e)
+		}
 	}
 	defProg, useProg := gen.Prog(def...), gen.Prog(use...)
 	avoid := s.Avoid(avoidRestored)
